@@ -153,7 +153,7 @@ func c16(c *wk.Ctx) {
 		}
 	}
 	// random sequences of 1-8 items
-	for k := 0; k < c.Pick(40, 1000); k++ {
+	for k := 0; k < c.Pick(100, 2000); k++ {
 		if c.Mine(idx) {
 			r := c.Rand(idx)
 			var seq []c16item
